@@ -4,6 +4,7 @@ mod util;
 mod c02;
 mod c03;
 mod c05;
+mod c06;
 mod c07;
 mod c08;
 mod c09;
@@ -35,6 +36,8 @@ fn main() {
         ("c03", "run") => c03::run(),
         ("c05", "gen") => c05::gen(seed, thorough),
         ("c05", "run") => c05::run(),
+        ("c06", "gen") => c06::gen(seed, thorough),
+        ("c06", "run") => c06::run(),
         ("c07", "gen") => c07::gen(seed, thorough),
         ("c07", "run") => c07::run(),
         ("c08", "gen") => c08::gen(seed, thorough),
